@@ -26,7 +26,8 @@ REGS = {'p': (('tok', 'P'), [Term('P', (('re', 'a+', ''),))]),
         'e': (('tok', 'E'), [Term('E', (('re', 'a|ab', ''),))])}     # leftmost-first != longest (finding #16)
 ALTS = {'u': (('tok', 'U'), [Term('U', (('str', 'aa', ''), ('re', 'a+', '')))]),            # alternatives inside one terminal:
         'v': (('tok', 'V'), [Term('V', (('str', 'ab', ''), ('re', 'a[bc]*', '')))]),       # lark orders them longest-first
-        'w': (('tok', 'W'), [Term('W', (('str', 'b', ''), ('str', 'bc', ''), ('str', 'c', '')))])}
+        'w': (('tok', 'W'), [Term('W', (('str', 'b', ''), ('str', 'bc', ''), ('str', 'c', '')))]),
+        'g': (('tok', 'G'), [Term('G', (('range', 'bc', ''), ('str', 'cc', '')))])}          # a literal range "b".."c"
 WS = Term('WS', (('str', ' ', ''),))
 AB_SP = {'a': (('tok', 'A'), [Term('A', (('str', 'a', ''),))]),
          'b': (('tok', 'ASB', ), [Term('ASB', (('str', 'a b', ''),))]),
@@ -68,7 +69,7 @@ def box(name):
     if name == 'd':
         return B(2, 'pqrst', (2, 1), 2, render=REGS), DYN, 'ab'
     if name == 'alt':
-        return B(2, 'uvw', (2, 1), 2, render=ALTS), DYN, 'abc'
+        return B(2, 'uvwg', (2, 1), 2, render=ALTS), DYN, 'abc'
     if name == 'd16':
         return B(2, 'pe', 2, 2, render=REGS), DYN, 'ab'
     if name == 'ig2':       # two ignored terminals that match at the same offset with different lengths
@@ -91,7 +92,7 @@ def box(name):
 # (box, slice modulus k or 1, input length L)
 QUICK = [('a1', 1, 5), ('e1', 1, 4), ('a2', 8, 4), ('a2i', 32, 4), ('b', 64, 4), ('bi', 256, 4), ('bs', 32, 4),
          ('d', 32, 4), ('d16', 16, 4), ('e2', 16, 3),
-         ('ig2', 16, 4), ('ig2r', 16, 4), ('nm1', 16, 4), ('nm2', 64, 3), ('bb', 32, 4), ('bbi', 32, 4), ('alt', 16, 4)]
+         ('ig2', 16, 4), ('ig2r', 16, 4), ('nm1', 16, 4), ('nm2', 64, 3), ('bb', 32, 4), ('bbi', 32, 4), ('alt', 32, 4)]
 THOROUGH = [('a1', 1, 6), ('e1', 1, 5), ('a2', 1, 5), ('a2i', 2, 4), ('b', 4, 4), ('bi', 16, 4), ('bs', 2, 5),
             ('d', 2, 4), ('d16', 1, 5), ('e2', 1, 4), ('e2i', 4, 4), ('a3', 4, 4), ('k3', 4, 5),
             ('ig2', 1, 4), ('ig2r', 1, 4), ('nm1', 1, 5), ('nm2', 2, 3), ('bb', 2, 5), ('bbi', 2, 4), ('alt', 1, 5)]
